@@ -74,7 +74,9 @@ Compare(b, p) ==
 (*   add a      insert an item named a (no effect if an equal item is present)                   *)
 (*   del a      remove the item equal to a; returns whether there was one                        *)
 (*   has a      membership of an item named a                                                    *)
-(*   hasstr a   membership of the plain string a (items compare equal to their name)             *)
+(*   hasstr a   membership of the plain string a (items compare equal to their name); a python    *)
+(*              string hashes by its spelling, so only the canonical (lower case) spelling is    *)
+(*              required to be found -- the property speaks about items, not about strings        *)
 (*   size       number of elements                                                               *)
 (*   eq a b     Item(a) == Item(b)                                                               *)
 (*   hasheq a b hash(Item(a)) == hash(Item(b)); only constrained when the items are equal         *)
@@ -87,7 +89,8 @@ ApplyC(S, e) ==
   CASE e.op = "add"    -> [st |-> S \cup {Fold(e.a)}, ret |-> "none"]
     [] e.op = "del"    -> [st |-> S \ {Fold(e.a)}, ret |-> B(Fold(e.a) \in S)]
     [] e.op = "has"    -> [st |-> S, ret |-> B(Fold(e.a) \in S)]
-    [] e.op = "hasstr" -> [st |-> S, ret |-> B(Fold(e.a) \in S)]
+    [] e.op = "hasstr" -> [st |-> S, ret |-> IF Fold(e.a) \notin S THEN "false"
+                                              ELSE IF Fold(e.a) = e.a THEN "true" ELSE "unspecified"]
     [] e.op = "size"   -> [st |-> S, ret |-> Str(Cardinality(S))]
     [] e.op = "eq"     -> [st |-> S, ret |-> B(Fold(e.a) = Fold(e.b))]
     [] e.op = "hasheq" -> [st |-> S, ret |-> IF Fold(e.a) = Fold(e.b) THEN "true" ELSE "unspecified"]
